@@ -214,6 +214,32 @@ def instances_part2(pos, kind):
     return [copy.deepcopy(v) for v in s]
 
 
+# part 2d: defaults next to a reference.  DEF_KINDS: component schema -> (truthy default, falsy default)
+DEF_KINDS = {"int": ({"type": "integer"}, 7, 0), "num": ({"type": "number"}, 2.5, 0.0), "bool": ({"type": "boolean"}, True, False),
+             "str": ({"type": "string"}, "dv", ""), "enum_int": ({"type": "integer", "enum": [0, 1, 2]}, 2, 0),
+             "enum_str": ({"type": "string", "enum": ["", "a", "b"]}, "b", "")}
+
+
+def doc_part2d(pos, kind, where, falsy, inline):
+    """where = "wrapper": the default stands next to a one-member allOf around the reference (inline twin: the schema with that default);
+    where = "component": the component itself declares the default (inline twin: a copy of it)."""
+    comp, truthy, fv = copy.deepcopy(DEF_KINDS[kind])
+    dv = fv if falsy else truthy
+    if where == "component":
+        comp["default"] = dv
+        sch = copy.deepcopy(comp) if inline else {"$ref": R + "Comp"}
+    else:
+        sch = dict(copy.deepcopy(comp), default=dv) if inline else {"allOf": [{"$ref": R + "Comp"}], "default": dv}
+    comps = {} if inline else {"Comp": comp}
+    paths = {}
+    if pos == "prop":
+        comps["M"] = {"type": "object", "properties": {"p": sch, "other": {"type": "string"}}}
+    else:
+        paths["/x"] = {"get": {"operationId": "theOp", "parameters": [{"name": "p", "in": pos, "required": False, "schema": sch}],
+                               "responses": {"204": {"description": "n"}}}}
+    return gen.base_doc(comps or None, paths=paths)
+
+
 def sharing_doc():
     comps = {"Shared": copy.deepcopy(REF_KINDS["object"]), "Kind": copy.deepcopy(REF_KINDS["enum_str"]),
              "A": {"type": "object", "properties": {"s": {"$ref": R + "Shared"}, "k": {"$ref": R + "Kind"}}},
@@ -230,7 +256,10 @@ def sharing_doc():
 
 MALFORMED = ["#/components/schemas/Nope", "http://remote.example/x.json#/components/schemas/Thing", "other.yaml#/components/schemas/Thing",
              "#/components/responses/Thing", "#", "#/", "#/components/schemas/Thing/", "#/components/schemas/Th%69ng", "",
-             "#/components/schemas/", "components/schemas/Thing", "#components/schemas/Thing", "#/definitions/Thing", "#/components/schemas/thing"]
+             "#/components/schemas/", "components/schemas/Thing", "#components/schemas/Thing", "#/definitions/Thing", "#/components/schemas/thing",
+             # another resource without a scheme or path (network-path reference, query); a component table with a deeper path
+             "//remote.example#/components/schemas/Thing", "?v=2#/components/schemas/Thing", "#/components/schemas/nested/Thing",
+             "#/components/responses/nested/Thing", "#/components/requestBodies/nested/Thing", "#/components/parameters/nested/Thing"]
 MAL_POS = ["prop", "item", "union", "addl", "allof", "param-schema", "body-schema", "resp-schema", "op-param", "op-body", "op-resp", "item-param"]
 
 
@@ -350,6 +379,12 @@ def cases(tier):
                         if (naming, order) != ("plain", "comp-first"):
                             yield {"labels": [f"schema-pos={pos}", f"kind={kind}", f"names={naming}", order],
                                    "payload": {"part": 2, "pos": pos, "kind": kind, "naming": naming, "order": order}}
+    for pos in ("prop", "query", "header"):
+        for kind in DEF_KINDS:
+            for where in ("wrapper", "component"):
+                for falsy in (False, True):
+                    yield {"labels": [f"default-at={where}", f"schema-pos={pos}", f"kind={kind}", "default=falsy" if falsy else "default=truthy"],
+                           "payload": {"part": "2d", "pos": pos, "kind": kind, "where": where, "falsy": falsy}}
     yield {"labels": ["class-sharing"], "payload": {"part": "sharing"}}
     # part 3
     for s in MALFORMED:
@@ -493,6 +528,61 @@ def _part2(p):
     return {"violations": viol, "outcome": "ok" if not viol else "viol:" + ",".join(sorted({v['oracle'] for v in viol})), "nontrivial": True, "steps": 2 + 2 * len(ba or [])}
 
 
+def _behaviour_default(res, pos):
+    from checks.c02 import find_class
+    from checks.c04 import reencode
+    out = []
+    with Sandbox(res.pkg_tree()) as sb:
+        if pos == "prop":
+            cls = find_class(res, sb, "M")
+            if cls is None:
+                return None
+            for inst in ({}, {"other": "o"}):
+                try:
+                    out.append(["decode", cls.from_dict(dict(inst)).to_dict()])
+                except Exception as exc:  # noqa: BLE001
+                    out.append(["decode-raises", type(exc).__name__])
+            try:
+                o = cls()
+                out.append(["construct", o.to_dict(), reencode(getattr(o, "p", "<no attribute>")) if type(getattr(o, "p", None)).__name__ != "Unset" else "<unset>"])
+            except Exception as exc:  # noqa: BLE001
+                out.append(["construct-raises", type(exc).__name__])
+            return out
+        if not res.endpoints:
+            return None
+        import httpx
+        mod = wire.endpoint_module(sb, res.endpoints[0])
+        for variant in ("sync_detailed", "asyncio_detailed"):
+            cap = wire.Capture(lambda request: httpx.Response(204))
+            r = wire.call(mod, variant, lambda: wire.make_client(sb, cap), cap, {})
+            out.append([variant, wire.req_summary(r["requests"][0])] if r["ok"] and r["requests"] else [variant, "raises", type(r.get("exc")).__name__])
+    return out
+
+
+def _part2d(p):
+    pos, kind, where, falsy = p["pos"], p["kind"], p["where"], p["falsy"]
+    a = gen.generate(doc_part2d(pos, kind, where, falsy, True))
+    b = gen.generate(doc_part2d(pos, kind, where, falsy, False))
+    key = f"default-{where}/{'param' if pos != 'prop' else 'prop'}/{kind}" + ("/falsy" if falsy else "")
+    for r in (a, b):
+        if r.crash:
+            return {"skipped_crash": True, "outcome": f"crash:{r.crash['type']}@{r.crash['where']}", "nontrivial": False}
+    if a.rejected or b.rejected:
+        return {"outcome": "rejected", "nontrivial": False}
+    viol = []
+    try:
+        ba, bb = _behaviour_default(a, pos), _behaviour_default(b, pos)
+    except ImportError as exc:
+        return {"outcome": f"import-fails:{exc}", "nontrivial": False}
+    if ba is None and bb is None:
+        return {"outcome": "pruned-both", "nontrivial": False}
+    if json.dumps(ba, sort_keys=True, default=str) != json.dumps(bb, sort_keys=True, default=str):
+        viol.append({"oracle": "behaviour-differs", "site": pos, "key": key, "detail": f"inline: {json.dumps(ba, default=str)[:300]} / by reference: {json.dumps(bb, default=str)[:300]}"})
+    if (len(a.diags) == 0) != (len(b.diags) == 0):
+        viol.append({"oracle": "diagnostics-differ", "site": pos, "key": key, "detail": f"inline: {[d.short() for d in a.diags][:2]} / by reference: {[d.short() for d in b.diags][:2]}"})
+    return {"violations": viol, "outcome": "ok" if not viol else "viol:" + ",".join(sorted({v['oracle'] for v in viol})), "nontrivial": True, "steps": 2 + 2 * len(ba or [])}
+
+
 def _classes_in(ann, out):
     if isinstance(ann, type):
         out.add(ann)
@@ -593,6 +683,8 @@ def run_case(p):
         return _part1(p)
     if part == 2:
         return _part2(p)
+    if part == "2d":
+        return _part2d(p)
     if part == "sharing":
         return _sharing(p)
     if part == 3:
